@@ -270,7 +270,10 @@ def shaped(rng, name, nrow, ncol, shape=None, **kw):
         return scalar_attr(rng, name, **kw)
     if shape == "row":
         return [scalar_attr(rng, name, **kw) for _ in range(ncol)]
-    return [[scalar_attr(rng, name, **kw) for _ in range(ncol)] for _ in range(max(1, nrow))]
+    rows = max(1, nrow)
+    if rows > 2 and rng.random() < 0.35:
+        rows = rng.randint(2, rows - 1)      # fewer rows than the table: recycled (zebra patterns)
+    return [[scalar_attr(rng, name, **kw) for _ in range(ncol)] for _ in range(rows)]
 
 
 def gen_body_attrs(rng, nrow, ncol, names=None, p=0.25, **kw):
@@ -448,7 +451,7 @@ def gen_table_spec(rng, *, nrows=(0, 30), ncols=(1, 6), strategy=None, header=No
 
 def gen_multi_spec(rng, *, nsec=(2, 4), nrows=(1, 12), ncols=(1, 5), convert=True, attrs_p=0.15,
                    rich=0.3, half_points=False, color_pool=None, same_cols=None, nrow=None,
-                   header_mode=None, long_p=0.0):
+                   header_mode=None, long_p=0.0, grouping=True):
     k = rng.randint(*nsec)
     sections = []
     base = 0
@@ -457,17 +460,25 @@ def gen_multi_spec(rng, *, nsec=(2, 4), nrows=(1, 12), ncols=(1, 5), convert=Tru
     for s in range(k):
         n = rng.randint(*nrows)
         nc = nc0 if same else rng.randint(*ncols)
-        df, meta = gen_df(rng, n, nc, convert=convert, row_base=base, long_p=long_p)
+        # a section may consume columns through page_by / subline_by like a single table
+        sec_kind = rng.choice(["plain", "plain", "plain", "page_by", "page_by", "subline"]) if grouping else "plain"
+        df, meta = gen_df(rng, n, nc, convert=convert, row_base=base, long_p=long_p,
+                          group_cols=1 if sec_kind == "page_by" else 0,
+                          subline_cols=1 if sec_kind == "subline" else 0, maxruns=3)
         nc = len(df["cols"])
         base += n
         body: dict = {}
+        if sec_kind == "page_by":
+            body["page_by"] = meta["page_by"]
+        elif sec_kind == "subline":
+            body["subline_by"] = meta["subline_by"]
         if not convert:
             body["text_convert"] = False
         if rng.random() < 0.4:
             body["col_rel_width"] = [rng.choice([1, 2, 0.5, round(rng.uniform(0.2, 10), 2)]) for _ in range(nc)]
         body.update(gen_body_attrs(rng, n, nc, p=attrs_p, half_points=half_points, color_pool=color_pool))
         sec = {"df": df, "body": body, "_meta": meta}
-        sec["colheader"] = gen_colheader(rng, nc, mode=rng.choice(["default", "none", "explicit"]),
+        sec["colheader"] = gen_colheader(rng, displayed_count(nc, body), mode=rng.choice(["default", "none", "explicit"]),
                                          base=10 * s, rich=rich, half_points=half_points, color_pool=color_pool)
         sections.append(sec)
     spec: dict = {"kind": "multi", "sections": sections,
